@@ -397,7 +397,9 @@ class Gen:
         if c == "push":
             return self.push()
         if c == "tally":
-            return L.fn("tally", self.href(r.choice(strict_any)), quals=[self.fresh("t")])
+            # a column a short row does not reach is tallied under the key "None"
+            col = self.href(r.choice(strict_any)) if (r.random() < 0.5 or self.no_headers) else self.href_any()
+            return L.fn("tally", col, quals=[self.fresh("t")])
         if c == "first":
             return L.fn("first", self.href(r.choice(strict_any)), quals=[self.fresh("f")])
         if c == "countx":
